@@ -36,6 +36,15 @@ def container_cases():
         out.append({"env": [(nm, body)], "rt": ("Ref", nm), "source": "proto-name"})
         out.append({"env": [(nm, ("Object", [("b", ("Typeof", "string"))], []))],
                     "rt": ("Object", [("p", ("Ref", nm)), ("q", ("Ref", nm))], []), "source": "proto-name"})
+    # named types without components (a primitive, a literal set, a builtin, the empty object), referenced once / twice / thrice
+    leaves = [("Typeof", "string"), ("AnyOfConsts", ["red", "green"]), ("Date",), ("Object", [], []), ("Const", "x"), ("BigInt",),
+              ("StringFmt", ["short"]), ("Regex", [("const", "id_"), ("string",)], "`id_${string}`", "(id_)(.*)")]
+    for leaf in leaves:
+        for n_refs in (1, 2, 3):
+            props = [("p%d" % i, ("Ref", "Id")) for i in range(n_refs)]
+            out.append({"env": [("Id", leaf)], "rt": ("Object", props, []), "source": "leaf-alias"})
+        out.append({"env": [("Id", leaf), ("Pair", ("Tuple", [("Ref", "Id"), ("Ref", "Id")], None))],
+                    "rt": ("Object", [("a", ("Ref", "Pair")), ("b", ("Array", ("Ref", "Pair")))], []), "source": "leaf-alias"})
     for keys in (["a-b", "1x", "", "ok", "$d", "with space", 'q"uote'],):
         out.append({"env": [], "rt": ("Object", [(k, ("Typeof", "string")) for k in keys], []), "source": "keys"})
     return out
@@ -95,6 +104,9 @@ def forced_programs(g, i):
         return "export type %s = { \"a\": Array<%s>; \"v\": %s };\nparse.buildParsers<{ X: %s, Y: { \"p\": %s; \"q\": %s } }>();" % (nm, nm, tsgen.ts(leaf), nm, nm, nm)
     if k == 4:
         return "export type I = { [key: string]: %s };\nexport type J = Record<string, %s>;\nparse.buildParsers<{ I: I, J: J }>();" % (tsgen.ts(g.leaf()), tsgen.ts(g.leaf()))
+    if k == 5 and (i // 8) % 2 == 0:
+        return ("export type Id = %s;\nexport type Color = \"red\" | \"green\";\nexport type Edge = { \"from\": Id; \"to\": Id; \"c\"?: Color; \"d\": Array<Color> };\n"
+                "parse.buildParsers<{ Edge: Edge, Ids: [Id, Id] }>();") % r.choice(["string", "number", "Date", "bigint"])
     if k == 5:
         return ("/** the a */\nexport type A = { /** field */ \"f\": %s; \"g\": A[] };\nexport type Sh = { \"s\": %s };\n"
                 "parse.buildParsers<{ A: A, Two: { \"x\": Sh; \"y\": Sh; \"z\": A } }>();") % (tsgen.ts(g.leaf()), tsgen.ts(g.leaf()))
